@@ -1,8 +1,13 @@
 package string_helper
 
-import "sort"
-
+// StringArrayContains reports whether searchterm is an element of s.
+// The slices passed in (modifier lists in source order, smell names in the order they
+// were given) are not sorted, so the elements are compared one by one.
 func StringArrayContains(s []string, searchterm string) bool {
-	i := sort.SearchStrings(s, searchterm)
-	return i < len(s) && s[i] == searchterm
+	for _, item := range s {
+		if item == searchterm {
+			return true
+		}
+	}
+	return false
 }
